@@ -110,6 +110,29 @@ def _r_again(name, nobjs, nvars):
     return _random.Random(f"{name}-{nobjs}-{nvars}")
 
 
+def _wfg1_front(p, z):
+    """the point of WFG1's Pareto front that belongs to the position variables of z (Huband et al. 2006: distance-related
+    parameter 0); independent of the library's transformation and shape code"""
+    k, M = p.k, p.m
+    t = [min(1.0, max(0.0, math.pow(z[i] / (2.0 * (i + 1)), 0.02))) for i in range(k)]
+    g = k // (M - 1)
+    x = []
+    for i in range(M - 1):
+        idx = list(range(i * g, (i + 1) * g))
+        w = [2.0 * (j + 1) for j in idx]
+        x.append(sum(wj * t[j] for wj, j in zip(w, idx)) / sum(w))
+    h = []
+    for m in range(1, M):
+        v = 1.0
+        for i in range(M - m):
+            v *= 1.0 - math.cos(x[i] * math.pi / 2)
+        if m > 1:
+            v *= 1.0 - math.sin(x[M - m] * math.pi / 2)
+        h.append(v)
+    h.append(1.0 - x[0] - math.cos(10 * math.pi * x[0] + math.pi / 2) / (10 * math.pi))
+    return [2.0 * (m + 1) * h[m] for m in range(M)]
+
+
 def run(ctx, drv):
     rng = ctx.rng
     ctx.nontrivial_rule = ("all 43 problem classes x supported numbers of objectives (DTLZ / WFG: 2-3 quick, 2-5 thorough) x in-bounds decision "
@@ -232,9 +255,19 @@ def run(ctx, drv):
                         eq = abs(sum(a * a for a in f) - 1.0) <= 1e-9
                     elif name in ("WFG4", "WFG5", "WFG6", "WFG7", "WFG8", "WFG9"):
                         eq = abs(sum((f[i] / (2.0 * (i + 1))) ** 2 for i in range(len(f))) - 1.0) <= 1e-9
+                    cls_ = f"{name}:sampler-off-front"
+                    if name == "WFG1":
+                        # WFG1's front: distance-related parameter x_M = 0, i.e. f_m = 2m * shape_m(x_1 .. x_{M-1}) with the position-
+                        # related x_i computed from the position variables alone (independent re-implementation of b_poly,
+                        # r_sum, convex and mixed shapes)
+                        fs = _wfg1_front(p, v)
+                        off = [a - b for a, b in zip(f, fs)]
+                        eq = all(abs(d_) <= 1e-9 * max(1.0, abs(b)) for d_, b in zip(off, fs))
+                        if not eq and max(off) - min(off) <= 1e-9 and 0 < off[0] <= 0.2:
+                            cls_ = "WFG1:sampler-uniformly-above-front"       # every objective too large by the same x_M
                     if eq is False:
                         ctx.fail("sampled-point-off-the-front", {"problem": desc, "variables": v, "objectives": f}, f, "front equation", f"problems.{name}.random")
-                        ctx.failures[-1]["input_class"] = f"{name}:sampler-off-front"
+                        ctx.failures[-1]["input_class"] = cls_
                         bad = True
                         break
                 has_eq = name in ("DTLZ1", "DTLZ2", "DTLZ3", "DTLZ4", "WFG4", "WFG5", "WFG6", "WFG7", "WFG8", "WFG9")
